@@ -655,7 +655,13 @@ where
         Op::MeanOfUnit => mean_calls(Mean::<B>::try_new([&Tagged::<A>::new(x).with_unit::<B>()])),
         Op::UnitOverMeanFromIter => {
             let (total, occurrences) = num_parts(&x);
-            record(&Mean::<A>::from_iter(std::iter::repeat_n(total / occurrences as f64, occurrences as usize)).with_unit::<B>())
+            // (through an iterator with an exact size hint, and through one whose lower bound is 0)
+            let items = std::iter::repeat_n(total / occurrences as f64, occurrences as usize);
+            if occurrences % 2 == 0 {
+                record(&Mean::<A>::from_iter(items).with_unit::<B>())
+            } else {
+                record(&Mean::<A>::from_iter(items.filter(|_| true)).with_unit::<B>())
+            }
         }
         Op::UnitOverNone => record(&Option::<Tagged<A>>::None.with_unit::<B>()),
         Op::NoneOfUnit => record(&Option::<WithUnit<Tagged<A>, B>>::None),
@@ -669,7 +675,7 @@ where
                 .try_extend([&t])
                 .and_then(|()| m.record_value(&t))
                 .map(|()| {
-                    m.add(&Mean::<A>::from_iter([2.0, 3.0]));
+                    m.add(&Mean::<A>::from_iter([2.0, 3.0].into_iter().filter(|v| *v > 0.0)));
                 })
                 .and_then(|()| m.try_extend([&t, &t]));
             mean_calls(r.map(|()| m.with_unit::<B>()))
